@@ -47,7 +47,7 @@ TIERS = {
     "thorough": {"runs": 1500000, "budget_s": 900, "max_ops": 60},
 }
 
-SOLVER_ONLY = ("is_sat", "is_valid", "is_unsat", "solve_assuming", "read", "oneshot_fails", "interrupted_read")
+SOLVER_ONLY = ("is_sat", "is_valid", "is_unsat", "solve_assuming", "read", "oneshot_fails", "interrupted_read", "other")
 SCRIPT_ONLY = ("assert_soft", "goal")
 
 
@@ -67,7 +67,7 @@ def gen_plan(tape, cfg):
     # swarm: which op kinds are enabled in this run
     kinds = [(6, "assert"), (3, "push"), (3, "pop"), (1, "reset"), (3, "check")]
     for w, k in [(2, "assert_soft"), (2, "goal"), (3, "is_sat"), (1, "is_valid"), (1, "is_unsat"),
-                 (2, "solve_assuming"), (2, "read"), (1, "oneshot_fails"), (1, "interrupted_read")]:
+                 (2, "solve_assuming"), (2, "read"), (1, "oneshot_fails"), (1, "interrupted_read"), (2, "other")]:
         if tape.chance(2, 3, "enable." + k):
             kinds.append((w, k))
     for _ in range(n):
@@ -136,6 +136,10 @@ def gen_plan(tape, cfg):
             ops.append({"op": "read"})
         elif k == "interrupted_read":
             ops.append({"op": "interrupted_read"})
+        elif k == "other":
+            # a SECOND live solver object of the same class, used in between (no nesting discipline)
+            ops.append({"op": "other", "what": tape.choice(["push", "pop", "assert", "is_sat", "read"], "other.what"),
+                        "f": bp.gen_term(tape, bp.BOOL, 1, ctx)})
         elif k == "oneshot_fails":
             # a one-shot query that raises (the back end cannot convert the formula, or answers
             # unknown) must also leave the assertion list as it found it
@@ -149,7 +153,7 @@ def gen_plan(tape, cfg):
         # a second concrete tracking solver: the real Portfolio (its proxies differ: _reset_assertions
         # is not wrapped in clear_pending_pop) over two simulated member processes
         plan["backend"] = "portfolio"
-        plan["ops"] = [o for o in ops if o["op"] not in ("oneshot_fails", "interrupted_read")][:14]
+        plan["ops"] = [o for o in ops if o["op"] not in ("oneshot_fails", "interrupted_read", "other")][:14]
         plan["delays"] = [tape.choice([0.0, 0.5, 0.5, 1.0], "pf.delay") for _ in range(2)]
     return plan
 
@@ -248,6 +252,7 @@ def _solver_half(plan, ops, symbols, tape, probe, trace):
     tok_bp = {}     # op index -> blueprint
     nontrivial = False
     unresolved_oneshot = False   # a one-shot query happened and nothing has met its pending pop yet
+    other = {"solver": None, "model": None, "tok": None}
 
     def live_bps():
         return [tok_bp[i] for i in model.live_assertions()]
@@ -276,7 +281,7 @@ def _solver_half(plan, ops, symbols, tape, probe, trace):
         if k in SCRIPT_ONLY:
             continue
         stack_op = k in ("push", "pop", "reset", "assert")
-        if unresolved_oneshot and k not in ("read", "interrupted_read"):
+        if unresolved_oneshot and k not in ("read", "interrupted_read", "other"):
             if stack_op and (k not in ("push", "pop") or o["n"] > 0):
                 nontrivial = True
                 probe("pending_pop_before_" + k)
@@ -355,6 +360,40 @@ def _solver_half(plan, ops, symbols, tape, probe, trace):
             solver.fault_plan.get("unknown_at", set()).clear()
             unresolved_oneshot = True
             nontrivial = True
+        elif k == "other":
+            if other["solver"] is None:
+                other["solver"] = BruteSolver(env, QF_BV, table=table, tape=tape, policy="first")
+                other["model"] = StackModel()
+                other["tok"] = {}
+            s2, m2 = other["solver"], other["model"]
+            w = o["what"]
+            if w == "push":
+                api("other.push", s2.push, 1)
+                m2.push(1)
+            elif w == "pop":
+                if m2.depth > 0:
+                    api("other.pop", s2.pop, 1)
+                    m2.pop(1)
+            elif w == "assert":
+                f2 = bp.build(o["f"], env)
+                other["tok"][i] = f2
+                api("other.add_assertion", s2.add_assertion, f2)
+                m2.assert_(i)
+            elif w == "is_sat":
+                api("other.is_sat", s2.is_sat, bp.build(o["f"], env))
+            got2 = api("other.assertions", lambda: list(s2.assertions))
+            want2 = [other["tok"][j] for j in m2.live_assertions()]
+            if len(got2) != len(want2) or any(g is not w_ for g, w_ in zip(got2, want2)):
+                raise Violation("C16:solver:assertions-mismatch",
+                                "second solver after %s@%d: assertions has %d items %s, model has %d" %
+                                (w, i, len(got2), [str(g) for g in got2][:6], len(want2)))
+            if s2.b_depth() != m2.depth:
+                raise Violation("C16:solver:backend-depth", "second solver after %s@%d: back end depth %d, model depth %d" %
+                                (w, i, s2.b_depth(), m2.depth))
+            probe("second_solver_interleaved")
+            nontrivial = True
+            trace.append(("other", w, m2.depth))
+            continue
         elif k == "interrupted_read":
             # the user interrupts (KeyboardInterrupt, not an Exception) while the level a one-shot
             # query left behind is being removed; nothing was removed, so it is removed next time
@@ -716,6 +755,22 @@ def _script_half(plan, ops, symbols, probe, trace):
                                     "group %s has clauses %s, model %s" %
                                     (w[1], [(str(a), str(b)) for a, b in got_soft],
                                      [(str(a), str(b)) for a, b in want_soft]))
+        if route == "direct" and built:
+            # the script is edited in place (same number of commands) and asked again
+            li = max(built)
+            c_old = cmd_of[li]
+            pos = script.commands.index(c_old)
+            newf = mgr.Not(c_old.args[0])
+            script.commands[pos] = SmtLibCommand(smtcmd.ASSERT, [newf])
+            try:
+                got2 = api("get_last_formula(edited)", lambda: script.get_last_formula(mgr=mgr))
+                want2 = mgr.And([(newf if i == li else cmd_of[i].args[0]) for i in model.live_assertions()])
+                if got2 is not want2:
+                    raise Violation("C16:script:direct:last-formula-after-edit",
+                                    "after replacing an assert in place get_last_formula() = %s, live assertions = %s" % (got2, want2))
+            finally:
+                script.commands[pos] = c_old
+            probe("script_edited_in_place")
         # strict formula, where defined
         names = [c.name for c in script.commands]
         if smtcmd.PUSH not in names and smtcmd.POP not in names and names.count(smtcmd.CHECK_SAT) == 1:
